@@ -22,47 +22,51 @@ CONSTANTS N,        \* dimension of the ambient space (N+1 points)
           R2,       \* squared radius of the shell
           ShellBox  \* shell vectors have entries in -ShellBox..ShellBox
 
-VARIABLES P, ctr
+VARIABLES P, ctr,
+          sol       \* solved centre of the N+1 points: [a, d] meaning a / d (<<>> before that)
 
 ShellVecs == {d \in Box(N, ShellBox) : Dot(d, d) = R2}
 Cands == IF Shell THEN {VAdd(ctr, d) : d \in ShellVecs} ELSE Box(N, Rng)
 
-Init == /\ P = <<>>
+Init == /\ P = <<>> /\ sol = <<>>
         /\ ctr \in (IF Shell THEN Box(N, Rng) ELSE {ZeroVec(N)})
 
-\* centre = num / den with one common denominator
+\* centre = a / d with one common denominator: Gauss-Jordan on the augmented system
 Sys(Q) == Elim(TLCEval([j \in 1..(Len(Q) - 1) |-> Append(SphereA(Q)[j], SphereB(Q)[j])]))
-CNum(Q) == LET e == Sys(Q) IN [i \in 1..N |-> e.A[i][N + 1]]
-CDen(Q) == Sys(Q).piv
-SmallC(Q) == LET a == CNum(Q)
-                 d == CDen(Q)
-             IN \A j \in 1..Len(Q) : \A c \in 1..N : Abs(a[c] - d * Q[j][c]) <= 20000
+Sol(Q) == LET e == Sys(Q) IN [a |-> TLCEval([i \in 1..N |-> e.A[i][N + 1]]), d |-> e.piv, ok |-> e.ok /\ e.rank = N]
+SmallSol(Q, s) == /\ s.ok /\ Abs(s.d) <= 20000
+                  /\ \A j \in 1..Len(Q) : \A c \in 1..N : Abs(s.a[c] - s.d * Q[j][c]) <= 20000
 
 AddPoint(p) ==
   /\ Len(P) <= N
   /\ LET Q == Append(P, p) IN
        /\ AffIndep(Q)
-       /\ (Len(Q) = N + 1 => Sys(Q).ok /\ Abs(CDen(Q)) <= 20000 /\ SmallC(Q))
        /\ P' = Q
+       /\ IF Len(Q) = N + 1
+          THEN LET s == Sol(Q) IN SmallSol(Q, s) /\ sol' = s      \* size guard: no 32-bit overflow below
+          ELSE sol' = <<>>
   /\ UNCHANGED ctr
 Next == \E p \in Cands : AddPoint(p)
 
 Full == Len(P) = N + 1
 \* d^2 |x - P_j|^2 for the solved centre x = a / d
-Dist2Num(j) == LET a == CNum(P)
-                   d == CDen(P)
-               IN ISum([c \in 1..N |-> (a[c] - d * P[j][c]) * (a[c] - d * P[j][c])])
+Dist2Num(j) == ISum([c \in 1..N |-> (sol.a[c] - sol.d * P[j][c]) * (sol.a[c] - sol.d * P[j][c])])
+CentreRat == [i \in 1..N |-> R(sol.a[i], sol.d)]
 
 GeneralPosition == AffIndep(P)
-SystemRegular == Full => Sys(P).rank = N /\ Sys(P).ok
+SystemRegular == Full => sol.ok
 Equidistant == Full => \A j \in 2..(N + 1) : Dist2Num(j) = Dist2Num(1)
-ShellCentre == (Full /\ Shell) => /\ Centre(P) = RVec(ctr)
-                                  /\ Dist2Num(1) = R2 * CDen(P) * CDen(P)
+ShellCentre == (Full /\ Shell) => /\ CentreRat = RVec(ctr)
+                                  /\ Dist2Num(1) \div (sol.d * sol.d) = R2
+                                  /\ Dist2Num(1) % (sol.d * sol.d) = 0
+\* the solution agrees with the generic solver of FormOps
+SolveAgrees == Full => Centre(P) = CentreRat
 \* the centre does not depend on the order of the points
 OrderFree == Full => \A i \in 2..(N + 1) :
                 LET Q == [j \in 1..(N + 1) |-> IF j = 1 THEN P[i] ELSE IF j = i THEN P[1] ELSE P[j]]
-                IN Sys(Q).ok => Centre(Q) = Centre(P)
+                    s == Sol(Q)
+                IN s.ok => [c \in 1..N |-> R(s.a[c], s.d)] = CentreRat
 
-Obs == [n |-> N, P |-> P, centre |-> Centre(P), r2 |-> R(Dist2Num(1), CDen(P) * CDen(P))]
+Obs == [n |-> N, P |-> P, centre |-> CentreRat, r2 |-> R(Dist2Num(1), sol.d * sol.d)]
 EmitObs == Full => PrintT("OBS " \o ToJson(Obs))
 =============================================================================
